@@ -548,7 +548,25 @@ impl<E: Elem> World<E> {
         if !E::TRACKED {
             return;
         }
-        let leak_ok = cx.checks.leak_ok_after_drop_fault || !cx.checks.conserve;
+        // Conservation (I4) is only judged for properties that state it. Where leaks are allowed
+        // (C05) or not the property's business, unreachable live elements are simply left alone:
+        // they stay live in the ledger, so that an implementation which releases them later —
+        // for example an iterator that finishes an interrupted skip when it is dropped — is not
+        // mistaken for a double drop. (Double drops of elements with identity are caught per id.)
+        if !cx.checks.conserve {
+            if !E::HAS_ID {
+                let (c, d) = ledger::zt_balance();
+                let live = c.saturating_sub(d);
+                if live < reach {
+                    fail(
+                        "I1-double-drop",
+                        format!("{} zero-sized elements are reachable from the pool but only {} are still live (some were dropped and are still owned)", reach, live),
+                    );
+                }
+            }
+            return;
+        }
+        let _ = fault_drop_fired;
         if E::HAS_ID {
             if ledger::live_count() as u64 != reach {
                 // skipped elements a live iterator may still own are not leaks (yet)
@@ -557,34 +575,21 @@ impl<E: Elem> World<E> {
                 }
                 let un: Vec<u32> = ledger::walk_unreached(usize::MAX).into_iter().filter(|id| !self.its.iter().any(|io| io.deferred.contains(id))).take(8).collect();
                 if !un.is_empty() {
-                    if cx.checks.conserve && !(cx.checks.leak_ok_after_drop_fault && fault_drop_fired) {
-                        fail(
-                            "I4-leak",
-                            format!("elements {un:?} are live but no longer reachable from any object the caller holds: they will never be dropped"),
-                        );
-                    } else if leak_ok {
-                        let all: Vec<u32> = ledger::walk_unreached(usize::MAX).into_iter().filter(|id| !self.its.iter().any(|io| io.deferred.contains(id))).collect();
-                        ledger::forgive_leaks(&all);
-                    }
+                    fail(
+                        "I4-leak",
+                        format!("elements {un:?} are live but no longer reachable from any object the caller holds: they will never be dropped"),
+                    );
                 }
             }
         } else {
             let (c, d) = ledger::zt_balance();
             let live = c.saturating_sub(d);
             let deferred: u64 = self.its.iter().map(|io| io.deferred_anon).sum();
-            if live > reach && live - reach <= deferred {
-                // may still be owned by iterators that were told to skip them
-            } else if live > reach {
-                // what the live iterators may still own is neither a leak nor forgiven
-                let excess = live - reach - deferred;
-                if cx.checks.conserve && !(cx.checks.leak_ok_after_drop_fault && fault_drop_fired) {
-                    fail(
-                        "I4-leak",
-                        format!("{} zero-sized elements are live but only {} are reachable from the pool", live, reach),
-                    );
-                } else if leak_ok {
-                    ledger::forgive_zt_leaks(excess);
-                }
+            if live > reach && live - reach > deferred {
+                fail(
+                    "I4-leak",
+                    format!("{} zero-sized elements are live but only {} are reachable from the pool", live, reach),
+                );
             } else if live < reach {
                 fail(
                     "I1-double-drop",
